@@ -107,8 +107,8 @@ P["C10"] = dict(cat="proof",
          "pivot model of CMRchrmatTernaryPivot keeps tu_bf); sp_greedy (= SP-reducibility) and balanced_bf likewise (scaling for ternary "
          "matrices). judge_rel is proved to check that M' is the stated transform of M and to demand equal / swapped / yes=>yes verdicts. "
          "Tie: ten recognizers x five decomposition strategies on transformed presentations of random, structured and large (up to ~40x40) matrices.",
-    note=NOTE_COMMON + "closure of graphicness / network / regularity under these transforms and of regularity under binary pivots are classical "
-         "facts not formalised here (the judge demands them, the theorems cover TU incl. pivots, SP and balancedness); 'Camion-signed' is compared only "
+    note=NOTE_COMMON + "closure of graphicness / network / regularity under the line operations are classical facts not formalised here (the judge "
+         "demands them; the theorems cover TU incl. ternary pivots, regularity under binary pivots, SP and balancedness); 'Camion-signed' is compared only "
          "when a presentation is reported TU.",
     tech="Coq closure theorems for the oracles + Coq-checked transform relation + metamorphic comparison of verdicts", ref="DESIGN.md C10")
 P["C11"] = dict(cat="proof",
